@@ -35,13 +35,13 @@ func init() {
 		Gen:        genC16,
 		Exec:       execC16,
 		QuickSecs:  30, ThoroughSecs: 600, RunsPerJob: 150,
-		Rule: "a run positions the fake clock relative to the 2020..2060 validity window of the fixture certificates and plays {sign(content 0..300 bytes, 1-3 signers out of SM2 / RSA-1024 / RSA-2048 / ECDSA P-256 / P-384 / self-signed / forged-certificate parties x digest SM3 / SHA-1/256/384/512, attached|detached, with|without attributes, digest-only, cfca wrappers, certificate options), " +
-			"envelope(content, one of the 12 registered content ciphers, 1-3 recipients, standard / GM / CFCA-legacy / SubjectKeyIdentifier recipient encodings, cfca wrappers), encrypt-psk, sign-and-envelope, clock-to(t), der(shape)} followed by deliveries {untouched, BER indefinite-length re-encoding (3 depths), one byte altered, every byte altered (7 alteration modes; exhaustive up to 1200 positions, evenly sampled above), truncation (+ spliced tail), extension, " +
-			"signer-info / recipient-info swapped in from another message, certificate list dropped / replaced / forged certificate inserted, content replaced, digest algorithm substituted, unauthenticated attribute added, element-level Byzantine re-encoding, chunked ciphertext} to a verifier (Verify / VerifyWithChain / VerifyWithChainAtTime / VerifyAsDigest* / cfca.Verify*) or an opener (recipient, non-recipient, recipient certificate with a foreign key, right / wrong / mis-sized PSK); " +
+		Rule: "a run positions the fake clock relative to the 2020..2060 validity window of the fixture certificates and plays {sign(content 0..300 bytes, 1-3 signers out of SM2 / RSA-1024 / RSA-2048 / ECDSA P-256 / P-384 / self-signed / forged-certificate parties x digest SM3 / SHA-1/256/384/512, attached|detached, with|without attributes, digest-only, cfca wrappers, certificate options, SetEncryptionAlgorithm with an identifier fitting key and digest, RemoveUnauthenticatedAttributes / RemoveAuthenticatedAttributes before Finish), " +
+			"envelope(content, one of the 12 registered content ciphers, 1-3 recipients, standard / GM / CFCA-legacy / SubjectKeyIdentifier recipient encodings, cfca wrappers), envelope-stepwise(New[SM2]EnvelopedData[WithSession] + AddRecipient per recipient with its own version 0/1/2 and ASN.1 / CFCA-legacy key encoding + Finish; key wrap by the caller's own code, DefaultSession or a caller-supplied Session that is transparent or keeps the data key under a mask; session failures in GenerateDataKey / EncryptdDataKey; every recipient and one outsider open the result at once), encrypt-psk, sign-and-envelope (+ AddCertificate), clock-to(t), der(shape), degenerate(certificate subset)} followed by deliveries {untouched, BER indefinite-length re-encoding (3 depths), one byte altered, every byte altered (7 alteration modes; exhaustive up to 1200 positions, evenly sampled above), truncation (+ spliced tail), extension, " +
+			"signer-info / recipient-info swapped in from another message, certificate list dropped / replaced / forged certificate inserted, content replaced, digest algorithm substituted, unauthenticated attribute added, element-level Byzantine re-encoding, chunked ciphertext} to a verifier (Verify / VerifyWithChain / VerifyWithChainAtTime at the simulated now or at an explicit time next to NotBefore / NotAfter / 2050 / a year outside / VerifyAsDigest* / cfca.Verify*) or an opener (recipient, non-recipient, recipient certificate with a foreign key, right / wrong / mis-sized PSK), parsed by Parse or ParseWithSession (the builder's session, a transparent one, DefaultSession, a foreign masked one, one whose DecryptDataKey fails); " +
 			"abstract history = clock class + sequence of (op kind, message kind, content length class mod 16, signer / recipient key kinds, digest, mode, cipher, fault kind, verifier or opener role); non-trivial = at least one message produced and one delivery judged; distinct = distinct abstract histories",
-		Real: []string{"pkcs7 (sign, verify, envelope, encrypt, decrypt, sign_enveloped, session, ber)", "cfca (pkcs7_sign, pkcs7_envelope)", "pkcs (content ciphers)", "smx509 (certificate parsing, chain verification at the simulated time)", "sm2 / sm3 / sm4, Go crypto/rsa, crypto/ecdsa, crypto/aes, crypto/des"},
+		Real: []string{"pkcs7 (sign, verify, envelope incl. the step-wise builder, encrypt, decrypt, sign_enveloped, session incl. ParseWithSession, ber, DegenerateCertificate)", "cfca (pkcs7_sign, pkcs7_envelope)", "pkcs (content ciphers)", "smx509 (certificate parsing, chain verification at the simulated time)", "sm2 / sm3 / sm4, Go crypto/rsa, crypto/ecdsa, crypto/aes, crypto/des"},
 		Stubs: []string{"wall clock: testing/synctest fake clock (starts 2000-01-01, moves only when the simulator sleeps)", "crypto/rand.Reader and Go's internal randomness: testing/cryptotest.SetGlobalRandom seeded from the program; optional short-read / zero-length-read wrapper around crypto/rand.Reader; MaybeReadByte coin fixed by the program",
-			"transport between producer and consumer (byte alteration, truncation, extension, element substitution, BER re-encoding)", "certificates of the RSA / ECDSA / additional SM2 parties: created once per worker with a fixed random stream under the fixture SM2 root / intermediate (deterministic bytes)"},
+			"transport between producer and consumer (byte alteration, truncation, extension, element substitution, BER re-encoding)", "caller-supplied pkcs7.Session: harness implementation (data key = function of the program, wrap / unwrap through pkcs7.DefaultSession, optional mask, injected failures)", "certificates of the RSA / ECDSA / additional SM2 parties: created once per worker with a fixed random stream under the fixture SM2 root / intermediate (deterministic bytes)"},
 		Assume: []string{
 			"acceptance oracle: an accepted message is judged on the library's own parsed view after BER normalisation (Content, Signers, Certificates): every accepted signer-info must carry a signature value that some honest signer of the run produced, over the same digest, with the same authenticated attributes (compared as a sorted set of DER attributes: SET OF order is not significant), under the same public key (with a trust store: the same TBSCertificate and certificate signature value - elements after the signature inside the Certificate SEQUENCE are ignored by the certificate parser exactly as in Go's crypto/x509 and are not compared), found under the issuer+serial the signer-info names; dropping a signer, changing unauthenticated attributes, versions, length encodings, the certificate list or trailing bytes is not a violation",
 			"ECDSA s -> n-s malleability and re-signing by another key without a trust store are outside the transport's fault set (they defeat the literal statement for any implementation)",
@@ -52,6 +52,12 @@ func init() {
 			"a recipient certificate used with another party's private key must fail or (if that key belongs to a recipient) yield the content; RSA PKCS#1 v1.5 unwrap with a wrong key may succeed with probability ~2^-16 and is then judged by the content cipher rule",
 			"crypto/rand read errors are not injected: since Go 1.24 crypto/rand.Read terminates the process when Reader fails; legal short reads and zero-length reads are injected",
 			"the library is handed content slices with canary-filled spare capacity: writing padding into that capacity (CBC / ECB content ciphers do) is counted as a probe, modifying the content itself is a violation",
+			"post-signing manipulation: RemoveUnauthenticatedAttributes must leave a message that verifies exactly as without it, carries no unauthenticated attribute and keeps authenticated attributes and signature values (read from the DER by the harness; the builder state before the call comes from GetSignedData); ExtraUnsignedAttributes must appear in the DER unless removed; after RemoveAuthenticatedAttributes on signers that signed attributes the message carries a signature over attributes it no longer has: by the property statement it must NOT verify (class attr-removed-still-verifies), the kept signature value must still be one over the removed attributes; on attribute-less signers the call changes nothing and honest acceptance stays demanded. That such a message is unverifiable although the method comment likens it to OpenSSL -noattr is recorded, not judged",
+			"SetEncryptionAlgorithm: only identifiers that fit the signer key and digest are set (rsaEncryption / shaXWithRSA, the curve or ecdsa-with-SHAx identifiers, SM2-1); SignWithoutAttr must name the identifier in the signer-info (read from the DER) and the message must verify as usual; AddSigner / AddSignerChain ignore the setting (not judged); SignWithoutAttr ignoring ExtraUnsignedAttributes is not judged (not requested there)",
+			"caller-supplied Session: GenerateDataKey must be asked exactly once for a key of the cipher's size, AddRecipient must hand the wrap function that key, a failure of GenerateDataKey / EncryptdDataKey / DecryptDataKey must surface as an error of New*WithSession / AddRecipient / Decrypt, and Decrypt after ParseWithSession(s) must obtain the content key of an EnvelopedData from s (the masked session makes this visible in the outcome: its messages open only through it). SignedAndEnvelopedData and EncryptedData never consult the session: there ParseWithSession is only demanded to behave like Parse",
+			"produced EnvelopedData is read by the harness: one recipient-info per AddRecipient, identified by issuer+serial (version 0 / 1) or the certificate's SubjectKeyIdentifier (version 2) as the AddRecipient comment says; the keyEncryptionAlgorithm field is recorded only (it follows the certificate's signature algorithm, not the recipient key; Decrypt does not read it). GetRecipients of an unaltered message must name exactly the added recipients (as a set: SET OF is sorted by the encoder)",
+			"GetOnlySigner of an unaltered message: the signer's certificate when exactly one signer signed and certificates are included, nil for 2+ signers and for a degenerate message; UnmarshalSignedAttribute(messageDigest / the extra signed attribute) of an unaltered message equals the ledger value of the first signer-info; a DegenerateCertificate message must parse to exactly the given certificates in order, no signer, no content, and must not verify through any verifier",
+			"VerifyWithChainAtTime with an explicit time strictly outside [NotBefore, NotAfter] of the fixture certificates (all share one window) must reject whatever the clock and the signing-time attribute say (its documented contract); exactly at the edges the verdict is recorded only; strictly inside, honest acceptance is demanded as for the simulated now",
 			"Ber2Der is reached through the verif-tagged export pkcs7.Ber2Der; DER inputs are all produced messages, all party certificates and generated TLV trees (definite minimal lengths, low and high tag numbers, lengths around 127/128, 255/256, 65535/65536)",
 		},
 	})
@@ -341,6 +347,15 @@ func genC16(r *sim.Rand, tier string) *sim.Program {
 			for _, x := range ps {
 				ints = append(ints, x, r.Weighted(1, 3, 1, 2)) // digest for RSA/ECDSA parties: sha1, sha256, sha384, sha512 (SM2 parties always use SM3)
 			}
+			// after the signer list: Remove{Unauthenticated,Authenticated}Attributes before Finish, SetEncryptionAlgorithm before each signer
+			post, encSel := 0, 0
+			if mode < 4 && r.Chance(1, 4) {
+				post = r.Weighted(0, 3, 3, 1)
+			}
+			if mode < 4 && r.Chance(1, 4) {
+				encSel = 1 + r.Intn(2)
+			}
+			ints = append(ints, post, encSel)
 			p.Add("sign", ints...).WithB(content)
 		case 1: // envelope
 			flav := r.Weighted(4, 4, 3, 2, 1, 1)
@@ -348,6 +363,30 @@ func genC16(r *sim.Rand, tier string) *sim.Program {
 			rs := c16PickDistinct(r, c16RecvPool, nr)
 			if r.Chance(1, 40) {
 				rs = append(rs, r.PickInt(3, 4)) // an ECDSA certificate cannot receive: creation-time error expected
+			}
+			if r.Chance(2, 5) {
+				// the step-wise builder: per-recipient version and key encoding, optional caller-supplied session
+				skind := r.Weighted(2, 2, 3, 3)
+				sfault := 0
+				if skind >= 2 && !clean && r.Chance(1, 6) {
+					sfault = 1 + r.Intn(4)
+				}
+				ints := []int{r.Intn(12), r.Intn(2), skind, rchunk(), sfault, len(rs)}
+				uniform := r.Chance(1, 2)
+				v0, l0 := r.Weighted(3, 3, 2), r.Intn(2)
+				for _, x := range rs {
+					v, l := v0, l0
+					if !uniform {
+						v, l = r.Weighted(3, 3, 2), r.Intn(2)
+					}
+					if v == 2 && x == 0 && r.Chance(9, 10) {
+						v = 1 // the fixture leaf has no SubjectKeyIdentifier: creation-time error expected (kept rare)
+					}
+					ints = append(ints, x, v, l)
+				}
+				ints = append(ints, r.Intn(c16NParties)) // where the search for an outsider starts
+				p.Add("envs", ints...).WithB(content, r.Bytes(16))
+				continue
 			}
 			ints := []int{r.Intn(12), flav, rchunk(), len(rs)}
 			ints = append(ints, rs...)
@@ -364,6 +403,7 @@ func genC16(r *sim.Rand, tier string) *sim.Program {
 				ints = append(ints, x, r.Weighted(1, 3, 1, 2))
 			}
 			ints = append(ints, rs...)
+			ints = append(ints, b2ii(r.Chance(1, 4))) // AddCertificate(unrelated certificate)
 			p.Add("sed", ints...).WithB(content)
 		}
 	}
@@ -405,12 +445,22 @@ func genC16(r *sim.Rand, tier string) *sim.Program {
 		if r.Chance(1, 5) {
 			variant = 1 + r.Intn(4)
 		}
+		via, at := 0, 0
+		if r.Chance(1, 3) {
+			via = r.Weighted(0, 6, 2, 2, 1) // ParseWithSession: the builder's / a transparent session, DefaultSession, a foreign session, a failing session
+		}
+		if vmode == 2 && r.Chance(1, 2) {
+			at = 1 + r.Intn(10) // explicit time for VerifyWithChainAtTime (c16AtTimes)
+		}
 		if clean {
 			f := 0
 			if r.Chance(1, 4) {
 				f = 6
 			}
-			p.Add("dlv", m, f, r.Intn(3), 0, 0, party, vmode, variant).WithB(r.Bytes(32))
+			if via >= 3 {
+				via = 1 // a foreign / failing session is a fault
+			}
+			p.Add("dlv", m, f, r.Intn(3), 0, 0, party, vmode, variant, via, at).WithB(r.Bytes(32))
 			continue
 		}
 		if r.Chance(1, 8) {
@@ -458,10 +508,17 @@ func genC16(r *sim.Rand, tier string) *sim.Program {
 		if extra == nil {
 			extra = r.Bytes(32)
 		}
-		p.Add("dlv", m, f, a, b, c, party, vmode, variant).WithB(extra)
+		p.Add("dlv", m, f, a, b, c, party, vmode, variant, via, at).WithB(extra)
 	}
 	if r.Chance(1, 6) {
 		p.Add("der", r.Intn(1<<30), r.Intn(3))
+	}
+	if r.Chance(1, 8) {
+		mask := r.Intn(1 << 13)
+		if r.Chance(1, 4) {
+			mask = r.PickInt(0, 1, 1<<9, 1<<10|1, 1<<13-1)
+		}
+		p.Add("degen", mask, r.Intn(3), r.Intn(1<<16), 1+r.Intn(255))
 	}
 	return p
 }
